@@ -13,7 +13,12 @@ RULE = ("one executor case per operator application (kinds cx.bin/asg[.r].<op>, 
         "operands (small integers and fractions, zero parts with probability 1/4, purely real / purely imaginary operands, zero "
         "divisors); float tier Complex<f64> vs the primitive-float model: components 0 or of magnitude 1e-100..1e100 (random 53-bit "
         "mantissa), purely real / imaginary operands, cancelling products, real scalars on either side, plus non-finite / overflowing "
-        "/ subnormal operands (tie only); distinct = distinct executor line; non-trivial = both operands have a non-zero component")
+        "/ subnormal operands (tie only); in both tiers structured operand classes (structured_cases): RELATED operands z op w with "
+        "w = z, conj z, -z, -conj z, iz, (im z, re z) under all four operators and the ordering; |re| = |im| with every sign pattern on "
+        "either side; the units 1, -1, +-i, +-1+-i, 2, 1/2, 2i, -i/2 and unit-modulus 3/5+4/5i on either side, with each other and "
+        "through every unary kind; real scalars 1, -1, 2, -2, 1/2, -1/2, 0 and scalars equal to a part of the operand (f64: also on "
+        "the left); f64 only: parts in the ratio 2^-k, k = 0..60 (abs, Signed::abs, abs_sqr, *, /; quick: one parity of k per seed "
+        "plus every k in 20..30); distinct = distinct executor line; non-trivial = both operands have a non-zero component")
 TRUSTED = ["Coq 8.16.1 kernel + vm_compute (primitive floats: bit-exact IEEE-754 binary64)",
            "Rust executor /verif/harness (Rat = i128 rationals; harness/src/k_complex.rs)",
            "python driver: generators, Fraction reference formulae, stream comparators",
@@ -42,7 +47,10 @@ MANIFEST = dict(
           "product, 7.1*2^-53 |z|/|w| for the quotient, one rounding per component for + - z*r z/r, 3*2^-53 for |z|. The model is run against the implementation on every operator "
           "variant (Complex<Rat> vs Qc exactly on a full 4^4 grid plus random operands, Complex<f64> vs primitive floats), and independent "
           "Fraction formulae search for a failing input (exact equality on rationals; normwise 8*2^-53 on f64 over 1e-100..1e100; assignment "
-          "form bitwise equal to binary form on every f64 operand pair including non-finite ones; trichotomy/transitivity on triples)."),
+          "form bitwise equal to binary form on every f64 operand pair including non-finite ones; trichotomy/transitivity on triples). "
+          "Besides independent random operands both tiers run structured operand classes: equal, conjugate, opposite, quarter-turned "
+          "and transposed operand pairs, |re| = |im|, the units (1, -1, +-i, 1+-i, 2, 1/2, unit modulus 3/5+4/5i) on either side, unit "
+          "real scalars on either side, and (f64) parts in every ratio 2^0 .. 2^-60."),
     note=("The accuracy theorems are about the float instance of the model (IEEE-754 binary64 as specified by Coq's FloatAxioms / Flocq), "
           "which is tied to the Rust code by differential execution on the sampled cases (all float cases bit-identical); that Rust's f64 "
           "operations are those IEEE operations is an assumption. Overflow/underflow/NaN behaviour is outside the property."),
@@ -239,6 +247,122 @@ def cancelling(rng, op):
         d = -b * c / a if op == "mul" else b * c / a
     return (a, b), (c, d)
 
+# ---- structured operand classes (special-values audit, findings/special-values-specB/C13-table.md) ----------------
+# Operands RELATED to each other: the independent random draws of the float tier never produce them, and an
+# operator may treat them specially (squaring when both operands are equal, |z|^2 for a conjugate pair, ...).
+RELATIONS = ("same", "conj", "neg", "negconj", "rot", "swap")
+
+def related(z, rel):
+    """w as a function of z = (a, b): the same value, conj z, -z, -conj z, i*z, (b, a); exact for Fractions and floats"""
+    a, b = z
+    if rel == "same": return (a, b)
+    if rel == "conj": return (a, -b)
+    if rel == "neg": return (-a, -b)
+    if rel == "negconj": return (-a, b)
+    if rel == "rot": return (-b, a)
+    if rel == "swap": return (b, a)
+    raise ValueError(rel)
+
+# the units of the Gaussian integers and their neighbours: 1, -1, i, -i, 1+-i, -1+-i, 2, 1/2, 2i, -i/2, and two
+# unit-modulus numbers off the axes (3/5 + 4/5 i, -4/5 + 3/5 i; 0.6 + 0.8i in f64)
+def units(elt):
+    c = (lambda n, d=1: Fraction(n, d)) if elt == 'crat' else (lambda n, d=1: n / d)
+    return [(c(1), c(0)), (c(-1), c(0)), (c(0), c(1)), (c(0), c(-1)), (c(1), c(1)), (c(1), c(-1)), (c(-1), c(1)), (c(-1), c(-1)),
+            (c(2), c(0)), (c(1, 2), c(0)), (c(0), c(2)), (c(0), c(-1, 2)), (c(3, 5), c(4, 5)), (c(-4, 5), c(3, 5))]
+
+def unit_scalars(elt, with_zero=True):
+    c = (lambda n, d=1: Fraction(n, d)) if elt == 'crat' else (lambda n, d=1: n / d)
+    return [c(1), c(-1), c(2), c(-2), c(1, 2), c(-1, 2)] + ([c(0)] if with_zero else [])
+
+def tie_parts(elt, g):
+    """|re| = |im| != 0 with every combination of signs"""
+    x = rq_nz(g) if elt == 'crat' else rf_nz(g)
+    return (x if g.chance(1, 2) else -x, x if g.chance(1, 2) else -x)
+
+def graded(g, k, exact_ratio):
+    """f64 z whose parts have the ratio 2^-k (times a random mantissa factor in [1,2) unless exact_ratio): one part
+    dominates by a controlled amount -- from equal parts (k = 0) to a part below the rounding unit of the other's
+    square (k > 53); which part is the small one and the signs are random.  All parts stay inside 1e-100..1e100."""
+    while True:
+        x = (1.0 + g.unit()) * 10.0 ** g.range(-80, 99)
+        m = 1.0 if exact_ratio else 1.0 + g.unit()
+        y = x * m * 2.0 ** -k
+        if 1e-100 <= abs(y) and abs(x) <= 1e100: break
+    if g.chance(1, 2): x = -x
+    if g.chance(1, 2): y = -y
+    return (x, y) if g.chance(1, 2) else (y, x)
+
+def structured_cases(rng, quick):
+    cases = []
+    OPS = ("add", "sub", "mul", "div")
+    for elt, rz, rz_nz, rs in (('crat', zq, zq_nz, rq), ('cplx', zf, zf_nz, rf)):
+        g = rng.fork("structured-" + elt)
+        # ---- related operand pairs: z op z, z op conj z, z op -z, z op -conj z, z op iz, z op (im z, re z)
+        nz = (4 if elt == 'crat' else 6) if quick else 28
+        for t in range(nz):
+            z = rz_nz(g) if t % 3 else tie_parts(elt, g)          # every third z has |re| = |im| as well
+            if not nonzero(z): continue
+            for rel in RELATIONS:
+                w = related(z, rel)
+                for op in OPS:
+                    cases.append(mk(elt, "cx.pair." + op, [z, w], elt + "-related-pair:" + rel))
+                cases.append(mk(elt, "cx.cmp", [z, w], elt + "-related-order"))
+            cases.append(mk(elt, "cx.cmp3", [z, related(z, "conj"), related(z, "neg")], elt + "-related-order"))
+            cases.append(mk(elt, "cx.cmp3", [z, z, related(z, "swap")], elt + "-related-order"))
+        # ---- |re| = |im| on either side, the other operand arbitrary: equal parts (x, x) and one of the three other
+        #      sign patterns per draw, as the right operand of every operator and as the left operand of one
+        for t in range((3 if elt == 'crat' else 6) if quick else 24):
+            x = rq_nz(g) if elt == 'crat' else rf_nz(g)
+            pats = [(x, x), g.choice([(x, -x), (-x, x), (-x, -x)])] if quick else [(x, x), (x, -x), (-x, x), (-x, -x)]
+            for w in pats:
+                for op in OPS:
+                    cases.append(mk(elt, "cx.pair." + op, [rz(g), w], elt + "-tie-parts"))
+                cases.append(mk(elt, "cx.pair." + g.choice(OPS), [w, rz_nz(g)], elt + "-tie-parts"))
+        # ---- the units on either side of an arbitrary operand, unit with unit, and through the unary operators
+        us = units(elt)
+        for u in us:
+            z = rz_nz(g)
+            for op in OPS:                                        # the unit on either side
+                cases.append(mk(elt, "cx.pair." + op, [z, u], elt + "-units"))
+                cases.append(mk(elt, "cx.pair." + op, [u, z], elt + "-units"))
+            for k in ("neg", "conj", "abs_sqr", "ident") + (("abs", "sabs") if elt == 'cplx' else ()):
+                cases.append(mk(elt, "cx." + k, [u], elt + "-units-unary"))
+        for t in range(8 if quick else len(us) ** 2):
+            u, v = (g.choice(us), g.choice(us)) if quick else (us[t // len(us)], us[t % len(us)])
+            for op in OPS:
+                cases.append(mk(elt, "cx.pair." + op, [u, v], elt + "-units"))
+        # ---- real scalars 1, -1, 2, -2, 1/2, -1/2, 0 and scalars equal to a part of the complex operand
+        for t in range(2 if quick else 8):
+            z = rz_nz(g)
+            scal = unit_scalars(elt) + [z[0], -z[0], z[1]]
+            for r in scal:
+                for op in OPS:
+                    if op == "div" and r == 0: continue
+                    cases.append(mk(elt, "cx.pair.r." + op, [z, r], elt + "-unit-scalars"))
+                if elt == 'cplx':
+                    cases.append(mk(elt, "cx.pair.rmul", [r, z], elt + "-unit-scalars"))
+            for u in (us if not quick else [g.choice(us)]):
+                for r in unit_scalars(elt, with_zero=False):
+                    op = g.choice(OPS)
+                    cases.append(mk(elt, "cx.pair.r." + op, [u, r], elt + "-unit-scalars"))
+    # ---- f64 only: graded ratio of the parts, 2^0 .. 2^-60 (quick: one parity of k per seed; thorough: every k, both)
+    g = rng.fork("structured-graded")
+    par = g.below(2)
+    for k in range(0, 61):
+        if quick and k % 2 != par and not (20 <= k <= 30): continue      # the band around sqrt(2^-53) = 2^-26.5 always
+        band = 20 <= k <= 30
+        for exact_ratio in ((False, True) if band or not quick else (g.chance(1, 2),)):
+            z = graded(g, k, exact_ratio)
+            cases.append(mk('cplx', "cx.abs", [z], "cplx-graded-ratio"))
+            cases.append(mk('cplx', "cx.sabs", [z], "cplx-graded-ratio"))
+            if not quick or (k % 4 == 2 * par and exact_ratio):
+                cases.append(mk('cplx', "cx.abs_sqr", [z], "cplx-graded-ratio"))
+                cases.append(mk('cplx', "cx.pair.mul", [z, graded(g, k, False)], "cplx-graded-ratio"))
+                cases.append(mk('cplx', "cx.pair.div", [zf(g), z], "cplx-graded-ratio"))
+    return cases
+
+STRUCTURED = True      # the structured operand classes above (special-values audit)
+
 def generate(rng, tier):
     cases = []
     quick = tier != "thorough"
@@ -344,6 +468,8 @@ def generate(rng, tier):
         if all(x == x for z in zs for x in z):
             cases.append(mk('cplx', "cx.cmp3", zs, "cplx-extreme-order"))
             cases.append(mk('cplx', "cx.cmp", zs[:2], "cplx-extreme-order"))
+    if STRUCTURED:
+        cases += structured_cases(rng.fork("structured"), quick)
     return cases
 
 # ----------------------------------------------------------------------------- oracle (independent reference)
